@@ -319,11 +319,49 @@ def case(ctx, i, rng):
         ctx.sample(dict(valid_config=cfg, insertion_nodes=[list(map(str, p)) for p, _ in nodes], required=[list(map(str, p)) for p, _ in required]))
 
 
+class _Enc:
+    def __init__(self, dim: int):
+        self.out = dim
+
+
+class _Dec:
+    def __init__(self, width: int = 1):
+        self.out = width
+
+
+def case_refused_link(ctx, i, rng):
+    """a link that is refused when it is added (it would close a cycle) leaves the parser as it was: its would-be target is
+    still a required argument"""
+    def build():
+        p = ArgumentParser(exit_on_error=False)
+        p.add_argument("--cfg", action=ActionConfigFile)
+        p.add_class_arguments(_Enc, "enc")
+        p.add_class_arguments(_Dec, "dec")
+        p.link_arguments("enc.out", "dec.width", apply_on="instantiate")
+        return p
+
+    p = build()
+    refused = call(p.link_arguments, "dec.out", "enc.dim", apply_on="instantiate")
+    ctx.count("mon.refused_link_then_required_check")
+    ctx.evaluation(("refused-link", i % 3))
+    if refused.accepted:
+        ctx.observe("cycle-closing link accepted (C16's business)", None)
+        return
+    how = rng.choice(["object", "string", "argv", "cfg"])
+    f = {"object": lambda: p.parse_object({}), "string": lambda: p.parse_string("{}"), "argv": lambda: p.parse_args([]), "cfg": lambda: p.parse_args(["--cfg={}"])}[how]
+    o = call(f)
+    ref = call({"object": lambda: build().parse_object({}), "string": lambda: build().parse_string("{}"), "argv": lambda: build().parse_args([]), "cfg": lambda: build().parse_args(["--cfg={}"])}[how])
+    if o.accepted and not ref.accepted:
+        ctx.violation("required", f"missing-required-accepted/target-of-a-refused-link/{how}", dict(refused_link=refused.brief(), result=short(o.value, 300), parser_without_the_attempt=ref.brief()))
+
+
 def ch_family(ch):
     return {"object_nodefaults": "object-nodefaults", "string_nodefaults": "text-nodefaults", "object": "object", "string": "text", "cfg_string": "text", "cfg_file": "text", "path": "text", "argv": "argv"}[ch]
 
 
 def run_shard(ctx):
     for i, rng in ctx.cases():
+        if i % 6 == 4:
+            case_refused_link(ctx, i, rng)
         zoo.CALLS.clear()
         case(ctx, i, rng)
